@@ -520,7 +520,7 @@ fn cases(tier: Tier) -> Vec<Case> {
                     }
                 }
                 // two clients restarting concurrently around t=2
-                v.push(make_case(&[vec![R::Sleep(2), R::Restart], vec![R::Sleep(2), R::Restart, R::Call]], strat, mb, None, ts, 8, if tier == Tier::Quick { Some(3) } else { None }));
+                v.push(make_case(&[vec![R::Sleep(2), R::Restart], vec![R::Sleep(2), R::Restart, R::Call]], strat, mb, None, ts, 8, if tier == Tier::Quick { Some(3) } else { Some(6) }));
             }
             // timers registered in a handler, then a restart
             for a in [
